@@ -32,8 +32,8 @@ type c20Case struct {
 	Fault    *ghfake.Fault `json:"fault,omitempty"`
 	Name     string        `json:"name"`
 	Withdraw bool          `json:"withdraw,omitempty"` // the first release of the catalogue disappears from the listing after the first list request
-	Stale    string        `json:"stale,omitempty"` // what an earlier, interrupted run left next to the executable: new-file | old-file | new-dir
-	Local    string        `json:"local,omitempty"` // a local fault while installing: rename | write-new | open-new (every such system call fails)
+	Stale    string        `json:"stale,omitempty"`    // what an earlier, interrupted run left next to the executable: new-file | old-file | new-dir
+	Local    string        `json:"local,omitempty"`    // a local fault while installing: rename | write-new | open-new (every such system call fails)
 }
 
 const c20ChecksumFile = "crs-toolchain-checksums.txt"
